@@ -593,6 +593,9 @@ func first(a, _ []byte) []byte { return a }
 //@ spec minLen_{alpha,unsigned,signed,float}() = 1
 //@ spec minLen_compound() = 0
 //@ spec LeafOK_{alpha,unsigned,signed,float,compound}(o) = as($KINDLeafNode, o).key.obj != nil && allocated(as($KINDLeafNode, o).key.obj) && 0 <= as($KINDLeafNode, o).key.idx && as($KINDLeafNode, o).key.idx + as($KINDLeafNode, o).len <= blen(as($KINDLeafNode, o).key.obj) && as($KINDLeafNode, o).len >= minLen_$KIND()
+// leafKeyIs: the (transformed) key stored in leaf o is exactly the byte string s
+//@ spec leafKeyIs_{alpha,unsigned,signed,float,compound}(o, s) = bytesEq(mkslice(as($KINDLeafNode, o).key.obj, as($KINDLeafNode, o).key.idx, as($KINDLeafNode, o).len), s)
+//@ spec leafKeyIs_collation(o, s) = bytesEq(mkslice(as(collateLeafNode, o).key.obj, as(collateLeafNode, o).key.idx, as(collateLeafNode, o).keyLen), s)
 //@ spec HeapOK_{alpha,unsigned,signed,float,compound}() = forallref(o, implies(inT(o) && allocated(o) && o != nil && !pooled(o), NodeOK(o) && implies(atype(o) == leafT(), LeafOK_$KIND(o))))
 //@ spec WF1_{alpha,unsigned,signed,float,compound}(t) = t != nil && allocated(t) && atype(t) == typeid($KINDSortedTree) && leafT() == typeid($KINDLeafNode) && rootOK(t.root) && HeapOK_$KIND()
 //@ spec WF1in_{alpha,unsigned,signed,float,compound}(t) = WF1_$KIND(t) && LinkedLive() && rootLive(t.root)
@@ -628,6 +631,7 @@ func first(a, _ []byte) []byte { return a }
 //@   opt casts on
 //@   opt extent on
 //@   requires WF1in_alpha(t)
+//@   ensures[found_sound] implies(result1, n.pointer != nil && n.tag == 4 && leafKeyIs_alpha(n.pointer, keyS) && result0 == as(alphaLeafNode, n.pointer).value)
 //@   ensures[pure] frame()
 //@   ensures[arg_bytes_unchanged] sameBytes(key, 0, blen(key.obj))
 //@   loop 1 (depth)
@@ -640,6 +644,7 @@ func first(a, _ []byte) []byte { return a }
 //@   opt casts on
 //@   opt extent on
 //@   requires WF1in_$KIND(t)
+//@   ensures[found_sound] implies(result1, n.pointer != nil && n.tag == 4 && leafKeyIs_$KIND(n.pointer, keyS) && result0 == as($KINDLeafNode, n.pointer).value)
 //@   ensures[pure] frame()
 //@   loop 1 (depth)
 //@     invariant 0 <= depth && depth <= len(keyS)
@@ -658,6 +663,7 @@ func first(a, _ []byte) []byte { return a }
 //@   opt extent on
 //@   let rootTag0 = t.root.tag
 //@   requires WF1in_alpha(t) && sizeSane(t)
+//@   ensures[removed_key_matches] implies(result, old(leafKeyIs_alpha(leaf, keyS)))
 //@   assume_at_call (*nodeRef).deleteChild : implies(isMerge(*ptr) && survT(*ptr, b) != 4, survP(*ptr, b) != ptr.obj && as(node, survP(*ptr, b)).prefixLen + as(node4, (*ptr).pointer).prefixLen + 1 < 4294967296)
 //@   ensures[wf] WF1_alpha(t)
 //@   ensures[size] t.size == old(t.size) - ite(result, 1, 0)
@@ -680,6 +686,7 @@ func first(a, _ []byte) []byte { return a }
 //@   opt extent on
 //@   let rootTag0 = t.root.tag
 //@   requires WF1in_$KIND(t) && sizeSane(t)
+//@   ensures[removed_key_matches] implies(result, old(leafKeyIs_$KIND(leaf, keyS)))
 //@   assume_at_call (*nodeRef).deleteChild : implies(isMerge(*ptr) && survT(*ptr, b) != 4, survP(*ptr, b) != ptr.obj && as(node, survP(*ptr, b)).prefixLen + as(node4, (*ptr).pointer).prefixLen + 1 < 4294967296)
 //@   ensures[wf] WF1_$KIND(t)
 //@   ensures[size] t.size == old(t.size) - ite(result, 1, 0)
@@ -831,6 +838,7 @@ func first(a, _ []byte) []byte { return a }
 //@   opt casts on
 //@   opt extent on
 //@   requires WF1in_collation(t)
+//@   ensures[found_sound] implies(result1, n.pointer != nil && n.tag == 4 && leafKeyIs_collation(n.pointer, keyS) && result0 == as(collateLeafNode, n.pointer).value)
 //@   ensures[scratch_bounded] scratchLen(t.cok.buf) < 2147483648
 //@   ensures[pure] frameExcept("collationSortedTree.cok.src", "CollationOrderKey.src")
 //@   loop 1 (depth)
@@ -849,6 +857,7 @@ func first(a, _ []byte) []byte { return a }
 //@   opt extent on
 //@   let rootTag0 = t.root.tag
 //@   requires WF1in_collation(t) && sizeSane(t)
+//@   ensures[removed_key_matches] implies(result, old(leafKeyIs_collation(leaf, keyS)))
 //@   ensures[scratch_bounded] scratchLen(t.cok.buf) < 2147483648
 //@   assume_at_call (*nodeRef).deleteChild : implies(isMerge(*ptr) && survT(*ptr, b) != 4, survP(*ptr, b) != ptr.obj && as(node, survP(*ptr, b)).prefixLen + as(node4, (*ptr).pointer).prefixLen + 1 < 4294967296)
 //@   ensures[wf] WF1_collation(t)
